@@ -49,6 +49,40 @@ fn main() {
             cleanup_scratch();
             c
         }
+        Some("demo") => {
+            // print the trace of one fault-free transfer (smoke test of the simulation engine)
+            use cfdp_verif::sim::*;
+            init_scratch();
+            let mut cfg = CfgSpec::default();
+            cfg.closure = args.iter().any(|a| a == "closure");
+            cfg.crc = args.iter().any(|a| a == "crc");
+            let mut sc = Scenario::two_entities(cfg.clone(), cfg);
+            let size: u32 = args.get(2).and_then(|s| s.parse().ok()).unwrap_or(100);
+            sc.puts.push(PutSpec {
+                at_ms: 0,
+                from: 0,
+                to: 1,
+                unack: args.iter().any(|a| a == "unack"),
+                file: Some(FileSpec { size, class: ContentClass::Random, seed: 5 }),
+                src_name: "src.bin".into(),
+                dst_name: "dst.bin".into(),
+                requests: vec![],
+                messages: vec![],
+            });
+            if let Some(d) = args.iter().position(|a| a == "drop") {
+                let dir: usize = args[d + 1].parse().unwrap();
+                let ord: u32 = args[d + 2].parse().unwrap();
+                sc.faults.push(Fault { from: dir, to: 1 - dir, ordinal: ord, kind: FaultKind::Drop });
+            }
+            let t = std::time::Instant::now();
+            let tr = run_scenario(&sc);
+            println!("{}", tr.render(400));
+            let src = sc.puts[0].file.as_ref().unwrap().bytes();
+            println!("destination equals source: {}", tr.file_at(1, "dst.bin").map(|d| d == src).unwrap_or(false));
+            println!("virtual end {} ms, wall {:?}, {} datagrams", tr.end_ms, t.elapsed(), tr.dgrams.len());
+            cleanup_scratch();
+            0
+        }
         _ => {
             eprintln!("usage: cfdp-verif check <ID> <quick|thorough> | replay <file>");
             2
